@@ -62,8 +62,13 @@ def run (c : Case) : Verdict := Id.run do
   let structTag := if mStored < n then "struct=singular" else if mNz < n then "struct=zero-forced" else "struct=nonsingular"
   let tags := structTag :: baseTags
   -- ---------- Prop 1: the caller's index arrays come back unchanged
-  if colptr1 ≠ colptr0 then return { prop := some s!"clause=arrays colptr changed by the call: before {colptr0} after {colptr1}", tags := tags }
-  if rowind1 ≠ rowind0 then return { prop := some s!"clause=arrays row indices changed by the call: before {rowind0} after {rowind1}", tags := tags }
+  let diffAt (a b : Array Int) : Nat := ((List.range (max a.size b.size)).find? fun i => a.getD i 0 ≠ b.getD i 0).getD 0
+  if colptr1 ≠ colptr0 then
+    let i := diffAt colptr0 colptr1
+    return { prop := some s!"clause=arrays colptr changed by the call: position {i} was {colptr0.getD i 0}, is {colptr1.getD i 0}", tags := tags }
+  if rowind1 ≠ rowind0 then
+    let i := diffAt rowind0 rowind1
+    return { prop := some s!"clause=arrays row indices changed by the call: position {i} was {rowind0.getD i 0}, is {rowind1.getD i 0}", tags := tags }
   -- ---------- Corr (computed now, reported only if Prop holds)
   let corr : Option String := Id.run do
     if firstDiff (c.raw "val0") (c.raw "val1") |>.isSome then return some "nzval modified by the call"
